@@ -23,7 +23,7 @@ func init() {
 			"Producers: every fork signature (Sign, SignASN1, PrivateKey.Sign, BlindKeySign) verifies under crypto/ecdsa and every crypto/ecdsa signature verifies here. " +
 			"Fault enumeration: GenerateKey and every signing entry point under a scripted entropy reader that delivers f bytes in a given chunking (all at once, byte by byte, seeded splits, interleaved zero-length reads) and then fails permanently, f = 0..need+1 exhaustively (need measured on a never-failing reader): a nil error implies the reader never failed and at least the needed bytes were consumed; a failed reader implies a non-nil error and nil key / r,s / signature. " +
 			"distinct_nontrivial = distinct (curve, case class, r class, s class | DER class | entry point, fault position, chunking) keys",
-		Floors:      []string{"one_octet_signatures_accepted_by_std", "keys_on_generic_curve_objects", "verify_agree_accept", "verify_agree_reject", "asn1_agree_accept", "asn1_agree_reject", "fork_signature_verifies_under_std", "std_signature_verifies_under_fork", "fault_error_returned", "fault_success_full_entropy", "s_plus_N_class", "asn1_bitflips", "wrapped_r_signatures", "history_verify_agrees", "constructed_doubling_case_accepted_by_std", "special_public_keys_accepted_by_std", "bulk_signatures_verified"},
+		Floors:      []string{"tiny_curve_cofactor_4_agrees", "one_octet_signatures_accepted_by_std", "keys_on_generic_curve_objects", "verify_agree_accept", "verify_agree_reject", "asn1_agree_accept", "asn1_agree_reject", "fork_signature_verifies_under_std", "std_signature_verifies_under_fork", "fault_error_returned", "fault_success_full_entropy", "s_plus_N_class", "asn1_bitflips", "wrapped_r_signatures", "history_verify_agrees", "constructed_doubling_case_accepted_by_std", "special_public_keys_accepted_by_std", "bulk_signatures_verified"},
 		Assumptions: []string{"crypto/ecdsa of the Go toolchain that builds the harness is the reference", "entropy failures are permanent and a failing Read delivers no bytes"},
 		Run:         runC13,
 	})
@@ -467,6 +467,7 @@ func runC13(c *core.Ctx) {
 		c13Faults(c, curve)
 	}
 	c13Bulk(c)
+	c13TinyCurve(c)
 }
 
 // c13Wrap builds valid signatures with r = R.x mod N and R.x >= N: pick R on the curve with x = N+i, any s and
@@ -883,6 +884,94 @@ func c13Bulk(c *core.Ctx) {
 		c.ClassN("bulk_signatures_verified", chunk)
 		if short > 0 {
 			c.ClassN("bulk_signatures_with_a_short_integer", int64(short))
+		}
+	}
+}
+
+// c13TinyCurve: a short-Weierstrass curve with a = -3 over a 17-bit field whose group order is 4 times the prime order
+// of the generator (p > 2N: an x-coordinate may exceed the order several times over), driven through the generic
+// elliptic.CurveParams arithmetic that both crypto/ecdsa and this package fall back to for curves they do not know.
+// Every x-coordinate reduction, bit-length assumption and "subtract N once" shortcut that happens to be right on the
+// NIST curves shows here. Verdicts are compared in both directions.
+func c13TinyCurve(c *core.Ctx) {
+	P := big.NewInt(65539)
+	cp := &elliptic.CurveParams{P: P, N: big.NewInt(16363), B: big.NewInt(52), BitSize: 17, Name: "tiny-a3-b52-p65539"}
+	// a generator of order N: 4 times the first point found whose multiple is not the identity
+	for x := int64(1); x < 65539 && cp.Gx == nil; x++ {
+		rhs := new(big.Int).Exp(big.NewInt(x), big.NewInt(3), P)
+		rhs.Sub(rhs, big.NewInt(3*x)).Add(rhs, cp.B).Mod(rhs, P)
+		y := new(big.Int).ModSqrt(rhs, P)
+		if y == nil {
+			continue
+		}
+		cp.Gx, cp.Gy = big.NewInt(x), y // temporarily, so that IsOnCurve etc. work
+		gx, gy := cp.ScalarMult(big.NewInt(x), y, []byte{4})
+		if gx.Sign() == 0 && gy.Sign() == 0 {
+			cp.Gx, cp.Gy = nil, nil
+			continue
+		}
+		if ox, oy := cp.ScalarMult(gx, gy, cp.N.Bytes()); ox.Sign() != 0 || oy.Sign() != 0 {
+			cp.Gx, cp.Gy = nil, nil
+			continue
+		}
+		cp.Gx, cp.Gy = gx, gy
+	}
+	if cp.Gx == nil {
+		c.Class("info_tiny_curve_not_constructed")
+		return
+	}
+	n := c.Pick(300, 6000)
+	for i := 0; i < n; i++ {
+		if !c.Next() {
+			continue
+		}
+		r := c.CaseRng()
+		d := new(big.Int).SetInt64(1 + int64(r.IntN(16362)))
+		qx, qy := cp.ScalarBaseMult(d.Bytes())
+		std := &stdecdsa.PrivateKey{PublicKey: stdecdsa.PublicKey{Curve: cp, X: qx, Y: qy}, D: d}
+		fork := &ecdsa.PrivateKey{PublicKey: ecdsa.PublicKey{Curve: cp, X: new(big.Int).Set(qx), Y: new(big.Int).Set(qy)}, D: new(big.Int).Set(d)}
+		digest := r.Bytes(r.Of(1, 2, 3, 20, 32))
+		det := map[string]any{"curve": cp.Name, "d": d.Text(16), "digest": core.Hex(digest)}
+		c.Eval(1)
+		pan, pv, where := core.Guard(func() {
+			sr, ss, err := stdecdsa.Sign(r, std, digest)
+			if err != nil {
+				c.Class("info_tiny_curve_std_sign_error")
+				return
+			}
+			det["r"], det["s"] = sr.Text(16), ss.Text(16)
+			if !ecdsa.Verify(&fork.PublicKey, digest, sr, ss) {
+				c.Violation("tiny-curve:std-signature-rejected", "a crypto/ecdsa signature on a curve with cofactor 4 is rejected by this package's Verify", det)
+				return
+			}
+			fr, fs, err := ecdsa.Sign(r, fork, digest)
+			if err != nil {
+				c.Violation("tiny-curve:sign-error", "Sign failed on a curve with cofactor 4: "+err.Error(), det)
+				return
+			}
+			det["r"], det["s"] = fr.Text(16), fs.Text(16)
+			if !stdecdsa.Verify(&std.PublicKey, digest, fr, fs) {
+				c.Violation("tiny-curve:signature-rejected-by-std", "a signature made here on a curve with cofactor 4 is rejected by crypto/ecdsa", det)
+				return
+			}
+			// arbitrary (r, s): the order is so small that a good share of random pairs are valid
+			for k := 0; k < 40; k++ {
+				rr, s2 := big.NewInt(int64(r.IntN(70000))), big.NewInt(int64(r.IntN(17000)))
+				want := stdecdsa.Verify(&std.PublicKey, digest, rr, s2)
+				if got := ecdsa.Verify(&fork.PublicKey, digest, rr, s2); got != want {
+					det["r"], det["s"] = rr.Text(16), s2.Text(16)
+					c.Violation("tiny-curve:Verify:disagrees", fmt.Sprintf("Verify returns %v where crypto/ecdsa returns %v on a curve with cofactor 4", got, want), det)
+					return
+				}
+				if want {
+					c.Class("tiny_curve_random_pairs_valid")
+				}
+			}
+			c.Class("tiny_curve_cofactor_4_agrees")
+		})
+		if pan {
+			det["panic"] = pv
+			c.Violation("tiny-curve:panic:"+where, "panic on a curve with cofactor 4: "+pv, det)
 		}
 	}
 }
